@@ -48,7 +48,15 @@ fn main() {
     let engine = (spec.engine)();
 
     // silence panic messages from expected panics inside cases
-    std::panic::set_hook(Box::new(|_| {}));
+    if std::env::var("VERIF_DEBUG").is_ok() {
+        std::panic::set_hook(Box::new(|i| {
+            if i.payload().downcast_ref::<bsv::runner::Marker>().is_none() {
+                eprintln!("panic: {i}");
+            }
+        }));
+    } else {
+        std::panic::set_hook(Box::new(|_| {}));
+    }
 
     let crash_path = runner::replay_dir().join(format!("{prop}-{seed}-{profile}-crash.case"));
     bsv::crash::install(&prop, crash_path.to_str().unwrap());
